@@ -213,12 +213,24 @@ inline std::string mutate_file(vf::Chooser& c, const std::string& valid, unsigne
           if (done) { ov.clear(); st.kinds["time_field"]++; }
           break;
         }
-        case 10: {  // an index member pointing just past its table (any small integer set to a table size)
+        case 10: {  // an index member pointing just past its table (any small integer set to a table size), or - several integers at once -
+                    // to values that are valid for some other (larger) table of the file but perhaps not for their own
           if (ints.empty() || conts.empty()) break;
-          Node* n = ints[c.range(0, ints.size() - 1)];
-          Node* t = conts[c.range(0, conts.size() - 1)];
-          n->major = cref::UINT; n->arg = t->kids.size() + c.range(0, 1);
-          st.kinds["index_past_table"]++;
+          if (c.coin()) {
+            Node* n = ints[c.range(0, ints.size() - 1)];
+            Node* t = conts[c.range(0, conts.size() - 1)];
+            n->major = cref::UINT; n->arg = t->kids.size() + c.range(0, 1);
+            st.kinds["index_past_table"]++;
+          } else {
+            unsigned k = (unsigned)c.range(2, 12);
+            for (unsigned i = 0; i < k; i++) {
+              Node* n = ints[c.range(0, ints.size() - 1)];
+              Node* t = conts[c.range(0, conts.size() - 1)];
+              if (t->kids.empty()) continue;
+              n->major = cref::UINT; n->arg = c.range(0, t->kids.size() - 1);
+            }
+            st.kinds["indices_valid_for_sibling_tables"]++;
+          }
           break;
         }
         case 11: {  // huge string: declared length large, actual content short (allocation by length field)
